@@ -236,6 +236,30 @@ theorem ifequal_complement (fuel : Nat) (a c : Expr) (t e : List Node) :
   congr 1; funext r2
   cases equalValueTo r1.v r2.v <;> simp
 
+/-- **`if / elif / else`, for any conditions**: with the conditions `c :: cs` still to be tried and
+    `bodies[i]` the branch of `c`: if `c` evaluates to a true value exactly that branch runs (in the
+    state the evaluation left) and no later condition is evaluated; if it is false and it was the
+    last condition, the else-branch `bodies[i + 1]` runs if there is one; otherwise the search goes
+    on with `cs` at `i + 1`. -/
+theorem if_chain_step (fuel : Nat) (c : Expr) (cs : List Expr) (bodies : List (List Node)) (i : Nat) (σ σ' : ES) (v : V)
+    (h : (eval T cfg g fuel c).run σ = .ok v σ') :
+    (v.v.isTrue = true →
+      (ifChain T cfg g (fuel + 1) (c :: cs) bodies i).run σ = (execNodes T cfg g fuel (bodies.getD i [])).run σ') ∧
+    (v.v.isTrue = false → cs = [] → bodies.length > i + 1 →
+      (ifChain T cfg g (fuel + 1) (c :: cs) bodies i).run σ = (execNodes T cfg g fuel (bodies.getD (i + 1) [])).run σ') ∧
+    (v.v.isTrue = false → (cs ≠ [] ∨ ¬ bodies.length > i + 1) →
+      (ifChain T cfg g (fuel + 1) (c :: cs) bodies i).run σ = (ifChain T cfg g fuel cs bodies (i + 1)).run σ') := by
+  refine ⟨?_, ?_, ?_⟩
+  · intro hv; rw [ifChain, run_bind_ok h]; simp [hv]
+  · intro hv hcs hb; rw [ifChain, run_bind_ok h]; subst hcs; simp [hv, hb]
+  · intro hv hor
+    rw [ifChain, run_bind_ok h]
+    rcases hor with hcs | hb
+    · have : (cs.length == 0) = false := by cases cs <;> simp at hcs ⊢
+      simp [hv, this]
+    · have : decide (bodies.length > i + 1) = false := by simpa using hb
+      simp [hv, this]
+
 /-- `if` with literal conditions: exactly the first branch whose condition is
     true runs; the else-branch if none is; nothing if there is none. -/
 theorem if_first_true (fuel : Nat) (p : TokPos) (bs : List Bool) (bodies : List (List Node)) (i : Nat) (σ : ES)
